@@ -26,8 +26,20 @@ What is proved, for every environment, configuration, state, key type and messag
   field is rejected unless the key holder signed that content too.
 * `signer_from_verified_key` — stake / edit-stake debit the address derived from the VERIFIED key; a
   `Signer` carried on the wire is rejected.
-* `multisig_threshold` — acceptance under a multisig key implies that at least `threshold` distinct
-  listed member keys signed the content.
+* `multisig_member_signed` (full strength, live obligation) / `multisig_threshold` — acceptance under
+  a multisig key implies that at least one listed member signed exactly the content, and at least
+  `threshold` distinct listed members did.
+
+Finding of this slice (repaired in /repo by dc0ba0c, recorded `fixed:` in known_findings.json): the
+multisig clause was FALSE of the code for threshold 0 — a key with threshold 0 and an empty signer
+bitmap authenticated any transaction with the identity of G2 as "signature", no private key involved
+(`open_multisig_authenticates_without_signature`, kernel witness `open_multisig_witness`; without the
+guard only `multisig_member_signed_partial` under `threshold ≥ 1` holds). The repair refuses a multisig
+key naming no signer in `CheckSignature`; `signer_guard_source` pins the guard from the regenerated
+source, `open_multisig_refused_with_guard` shows it closes the witness, and the Go driver re-offers
+the transaction through all three verification paths on every run (oracle signature
+`C05:multisig-no-signer-accepted`). Still accepted, by the documented meaning of threshold 0 ("no
+enforcement"): ONE real member signature under a threshold-0 key — `multisig_member_signed` covers it.
 
 The tie to the source (regenerated from `/repo` on every run, `Gen/Auth.lean`, closed by `decide`):
 the three switches enumerate the same 16 kinds; `Auth.authSpec` renders to the generated table of
